@@ -12,7 +12,7 @@ one() {
   rmdir $wt; git -C /repo worktree add --detach $wt HEAD >/dev/null 2>&1 || { echo "$id: worktree failed"; return; }
   # older patches were cut against a tree that later fix: commits changed: fall back to a three-way merge
   if ! git -C $wt apply $d/patch.diff 2>/dev/null && ! git -C $wt apply --3way $d/patch.diff >/dev/null 2>&1; then echo "$id: STALE PATCH (does not apply to /repo HEAD any more, not even three-way)"; git -C /repo worktree remove --force $wt; return; fi
-  out=$(cd $V && VERIF_REPO=$wt timeout 3000 ./check $prop 2>&1)
+  out=$(cd $V && VERIF_REPO=$wt timeout 5400 ./check $prop 2>&1)
   n=$(echo "$out" | grep -c '^VIOLATION')
   mach=$(echo "$out" | grep -c '^MACHINERY')
   git -C /repo worktree remove --force $wt >/dev/null 2>&1; rm -rf $wt
